@@ -78,7 +78,10 @@ impl TaskPool {
     pub fn spawn(&self, code: Box<dyn FnMut() + Send>) {
         let mut queue = self.sharing.todo.lock().unwrap();
 
-        if self.sharing.waiting_tasks.load(Ordering::Acquire) == 0 {
+        // a worker stays counted as waiting from the moment it is notified until it has
+        // re-acquired the lock, so every task already queued has claimed one of the waiting
+        // workers: only the surplus is actually free
+        if self.sharing.waiting_tasks.load(Ordering::Acquire) <= queue.len() {
             self.add_thread(Some(code));
         } else {
             queue.push_back(code);
